@@ -386,7 +386,7 @@ def run(ctx):
     sens_dir = tempfile.mkdtemp(prefix="ldar_c19_")
     jobs = []
     try:
-        nb = ctx.pick(250, 3000)
+        nb = ctx.pick(250, 1800)
         for b in range(nb):
             base = make_base(rng, defs, scratch)
             rt = V.real_roundtrip(base)
